@@ -221,10 +221,10 @@ _TRANS = {
             _TF + _TR + _TP + _TL + ["TransEquiv.limitedReader_Read_eq", "TransEquiv.copy_step_eq"]),
     "C15": (["Gws.Props.TransQueue"], ["TransEquiv.getJob_eq"]),
     "C19": (["Gws.Props.TransMap"], ["TransEquiv.shardIndex_eq"]),
-    "C10": (["Gws.Props.TransHandshake"], ["TransEquiv.HttpHeaderContainsToken_eq", "TransEquiv.GetIntersectionElem_eq", "TransEquiv.requestChecks_eq",
+    "C10": (["Gws.Props.TransHandshake", "Gws.Props.TransUpgrade"], ["TransEquiv.serverDecide_eq_translated", "TransEquiv.HttpHeaderContainsToken_eq", "TransEquiv.GetIntersectionElem_eq", "TransEquiv.requestChecks_eq",
                                           "TransEquiv.serverDecide_requestChecks", "TransEquiv.WithHeader_eq", "TransEquiv.keyAndAccept_eq", "TransEquiv.WithSubProtocol_eq", "TransEquiv.deleteProtectedHeaders_eq"]),
     "C11": (["Gws.Props.TransHandshake"], ["TransEquiv.HttpHeaderContainsToken_eq", "TransEquiv.GetIntersectionElem_eq", "TransEquiv.InCollection_eq",
-                                          "TransEquiv.checkHeaders_eq", "TransEquiv.getSubProtocol_eq", "TransEquiv.request_headers_eq"]),
+                                          "TransEquiv.checkHeaders_eq", "TransEquiv.getSubProtocol_eq", "TransEquiv.request_headers_eq", "TransEquiv.clientHandshake_eq_translated"]),
     "C05": (["Gws.Props.TransFrame", "Gws.Props.TransClose", "Gws.Props.TransWriter", "Gws.Props.TransCompress"],
             ["TransEquiv.SetLength_eq", "TransEquiv.GenerateHeader_eq", "TransEquiv.local_close_body_eq", "TransEquiv.genFrame_eq", "TransEquiv.stripTail_eq", "TransEquiv.compressData_eq"]),
     "C06": (["Gws.Props.TransClose"], _TC),
